@@ -356,3 +356,14 @@ def plumbing(ctx):
         if not (field is not None and contains(field, ("in", "b")) and not subterms(field, lambda x: x and x[0] in ("sl", "mut", "SETBYTE"))):
             probs.append("from_raw_bytes does not store the bytes verbatim: " + fmt_n(v)[:200])
     ctx.add("R08.6", "C08/plumbing/KeyText-from_raw_bytes", not probs, "; ".join(probs), site_of(f) if f else None)
+
+# ---- R08.10 (shared with C04 R04.1): a key decoder returns Err on a byte string it does not accept — no panic-capable construct
+# in any HasKey::decode is left undischarged (e.g. reading the SEC1 tag byte before the length test)
+_run_c08 = run
+def run(ctx):
+    _run_c08(ctx)
+    import shared
+    n = shared.share(ctx, "c04", lambda r, k: r == "R04.1" and "HasKey<" in k and ">::decode/" in k, "R08.10", "C08/decode-no-panic/")
+    if n == 0:
+        ctx.add("R08.10", "C08/decode-no-panic/none", True, "", None, {"note": "no panic-capable construct exists in any key decoder"})
+FLOORS["R08.10"] = 1
